@@ -12,6 +12,8 @@ Case language (all JSON-able):
                         | ["l", [vs..]] | ["T", [vs..]] | ["s", [vs..]] | ["fs", [vs..]] | ["d", [[k, v]..]]
   wire spec        ws :=  ["wi", tbname, size, value] | ["wf", bits] | ["ws", vocab?, size, [byte..]]
                         | ["wo", opentype, [ws..]] | ["wr", vs, argno]   (wr: OPEN reference to an earlier argument of shape vs)
+                        | ["wq", k, partial vs]  (the same for an enclosing list / dict: the receiver holds the real, partially
+                                          filled container; partial = the value it has when the reference arrives)
                         | ["wp", k]      (OPEN reference to the k-th ENCLOSING sequence, which is still open; k = 0 is the
                                           sequence that directly contains the reference; the target must be a tuple)
 """
@@ -371,6 +373,8 @@ def to_wobj(ws):
         return "(WRef %s)" % to_obj(ws[1])
     if k == "wp":
         return "(WRef (OPending %d))" % ws[1]
+    if k == "wq":
+        return "(WRefOpen %d %s)" % (ws[1], to_obj(ws[2]))
     raise ValueError(ws)
 
 
@@ -430,7 +434,7 @@ class Enc:
                 self.wire(x, refs, text=(ws[1] == "unicode"), stack=stack + (objid,))
             self.close(oc)
             return objid
-        elif k == "wp":
+        elif k in ("wp", "wq"):
             oc, _ = self.open(b"reference")
             self.tok(tokens.INT, stack[len(stack) - 1 - ws[1]])
             self.close(oc)
@@ -469,6 +473,8 @@ def make_interface(methods, direct=False):
 
 
 class Target(Referenceable):
+    echo = False
+
     def __init__(self, names, results=None):
         self.calls = []
         self.results = results or {}
@@ -478,8 +484,15 @@ class Target(Referenceable):
     def _mk(self, n):
         def m(*a, **kw):
             self.calls.append((n, a, kw))
+            if self.echo:
+                return a[0] if a else list(kw.values())[0]
             return self.results.get(n)
         return m
+
+
+class SharedTarget(Target):
+    """ONE python class for many targets: each instance declares its own RemoteInterface with zope's directlyProvides
+    (Referenceable.getInterface() supports that), so what governs a call is the interface of the INSTANCE"""
 
 
 def export(tb, cb, target, iname=None):
@@ -531,17 +544,39 @@ def vocab_words(vocab_index):
     return list(vocab.INITIAL_VOCAB_TABLES[vocab_index])
 
 
+_shared_classes = {}
+_worlds = [0]
+# Collecting a dead RemoteReference runs a weakref callback that calls eventually() -> Clock.callLater; when the cyclic
+# collector happens to run while task.Clock is sorting its call list that raises "list modified during sort".  Cycle
+# collection is therefore done only at fixed points (between trials), which also makes every run reproducible.
+import gc
+gc.disable()
+
+
 class World:
     """a Broker pair, a Target implementing a fresh RemoteInterface with one method `m`"""
 
-    def __init__(self, argnames, cons, resp=None, result=None, shared_iface=True, vocab=0, direct=False):
+    def __init__(self, argnames, cons, resp=None, result=None, shared_iface=True, vocab=0, direct=False,
+                 per_instance=False, echo=False):
+        _worlds[0] += 1
+        if _worlds[0] % 20 == 0:
+            gc.collect()
+            E.turn()
         E.reset_clock()
         self.vocab = vocab
         self.iface = make_interface({"m": (argnames, cons, resp)}, direct=direct)
         self.ms = self.iface["m"]
-        implementer(self.iface)(type("T", (Target,), {}))
-        cls = implementer(self.iface)(type("T", (Target,), {}))
-        self.target = cls(["m"], {"m": result})
+        if per_instance:
+            from zope.interface import directlyProvides
+            # per_instance names a GROUP: all targets of one group are instances of one python class
+            if per_instance not in _shared_classes:
+                _shared_classes[per_instance] = type("SharedTarget_%s" % per_instance, (SharedTarget,), {})
+            self.target = _shared_classes[per_instance](["m"], {"m": result})
+            directlyProvides(self.target, self.iface)
+        else:
+            cls = implementer(self.iface)(type("T", (Target,), {}))
+            self.target = cls(["m"], {"m": result})
+        self.target.echo = echo
         self.tb, self.cb = vocab_broker_pair(vocab)
         self.recv_errors = []
         for b in (self.tb, self.cb):
@@ -561,6 +596,19 @@ class World:
         self.rr.callRemote("m", *args, **kw).addBoth(res.append)
         E.turn()
         return res
+
+    def refused_call(self):
+        """history for this connection: a call (to a second target, m(a=int)) that the receiver refuses in the middle --
+        the argument is a nested list sent without the local check -- and whose remaining tokens it discards"""
+        iface = make_interface({"m": (["a"], [int], None)})
+        cls = implementer(iface)(type("TJunk", (Target,), {}))
+        t2 = cls(["m"])
+        rr2, _ = export(self.tb, self.cb, t2, iface.__remote_name__)
+        self._history = (t2, rr2)                    # kept alive as long as the World
+        res = []
+        rr2.callRemote("m", [[1], [2, [3]], {4: [5]}], _useSchema=False).addBoth(res.append)
+        E.turn()
+        return outcome_of(res), len(t2.calls)
 
     def alive(self):
         return not self.tb.disconnected and not self.cb.disconnected
@@ -640,12 +688,12 @@ def IConstraint_of(c):
     return IConstraint(c)
 
 
-def call_trial(argnames, cons, pos_ws, kw_ws, numargs=None, prelude=None, vocab=0, direct=False):
+def call_trial(argnames, cons, pos_ws, kw_ws, numargs=None, prelude=None, vocab=0, direct=False, per_instance=False):
     """hand-built `call` for method m(argnames=cons): positional wire trees pos_ws, keyword wire trees kw_ws
     [(name, ws)..].  The caller side has a PendingRequest for reqID 1 so the Error/Answer coming back is observed.
     prelude: list of value specs sent first inside the arguments scope?  (not possible: see smuggle_trial)"""
     from foolscap import call as callmod
-    w = World(argnames, cons, None, vocab=vocab, direct=direct)
+    w = World(argnames, cons, None, vocab=vocab, direct=direct, per_instance=per_instance)
     req = callmod.PendingRequest(1, None, None, "m")
     w.cb.addRequest(req)
     res = []
@@ -1118,6 +1166,8 @@ def py_recv(cs, ws):
         return "ok" if cs is None or py_satisfies(cs, to_py(ws[1])) else "viol"
     if k == "wp":
         return "ok" if cs is None or _accepts_placeholder(cs) else "viol"
+    if k == "wq":
+        return "ok" if cs is None or py_satisfies(cs, to_py(ws[2])) else "viol"
     ot, kids = ws[1], ws[2]
     if cs is not None and cs[0] not in ("any", "opt", "choice") and ot not in _OPENTYPES[cs[0]]:
         return "viol"
